@@ -4,10 +4,18 @@
   * `Inv`        : the ghosts `loc` / `busy` are exact, no fiber is in two places, a
                    load_balance call in progress (`lb k > 0`) owns everything in `frm k`.
   * `rankOn k f` : the one-thread rank (`Sched.rank`) of `f` on the deques of thread `k`.
-  * `pot`        : potential of a fiber: `rankOn` on its holder plus the steals its holder may
-                   still add in the running load_balance call.
+  * `pot`        : potential of a fiber.  In `schedule_from` of its holder: its position plus
+                   the steals the holder may still add in the running load_balance call.  In
+                   `store_to` of its holder: `2·(#fibers − 1 − [the holder runs a fiber]) − position`
+                   (everything that can still be run before it, twice: once out of
+                   `schedule_from`, once more as a re-queued yielder in front of it) — the
+                   holder may call load_balance with fibers waiting in `store_to`, and what it
+                   steals then is run first, but it can only steal fibers that exist.
   * `pot_step`   : every event costs `pot` what it adds to the count of holder switches; only a
-                   steal of `f` itself may raise it, to at most `maxSteal - 1`.
+                   steal of `f` itself may raise it, to at most `maxSteal - 1` (and the creation
+                   / wake-up of another fiber by 2).
+  * `Ready`      : `f`'s context is saved (it is not SAVING_STATE_TO_WAIT) or `f` is nowhere;
+                   stable without `sched f`, and a ready fiber is never skipped.
 -/
 import LibfiberVerif.Model.SchedN
 import LibfiberVerif.Proof.Sched
@@ -100,7 +108,7 @@ theorem step_sched {M : Nat} {s s' : St} {k f : Nat} (h : step M s (.sched k f) 
   simp only [step] at h
   split at h <;> simp at h
   rename_i hc
-  exact ⟨hc.1, hc.2.1, hc.2.2, h.symm⟩
+  exact ⟨hc.1, hc.2.1, hc.2.2.2, h.symm⟩
 
 theorem step_yield {M : Nat} {s s' : St} {k : Nat} (h : step M s (.yield k) = some s') :
     s.phase k = .running ∧ s.cur k ≠ none ∧
@@ -108,25 +116,33 @@ theorem step_yield {M : Nat} {s s' : St} {k : Nat} (h : step M s (.yield k) = so
   simp only [step] at h
   split at h <;> simp at h
   rename_i hc
-  exact ⟨hc.1, hc.2, h.symm⟩
+  exact ⟨hc.1, hc.2.1, h.symm⟩
 
-theorem step_finish {M : Nat} {s s' : St} {k : Nat} (h : step M s (.finish k) = some s') :
+theorem step_finish {M : Nat} {s s' : St} {k : Nat} {sv : Bool}
+    (h : step M s (.finish k sv) = some s') :
     ∃ f, s.cur k = some f ∧ s.phase k = .running ∧
     s' = { s with cur := upd s.cur k none, phase := upd s.phase k .ending,
-                  loc := upd s.loc f none, busy := s.busy.erase f } := by
+                  sav := upd s.sav f sv, loc := upd s.loc f none, busy := s.busy.erase f } := by
   simp only [step] at h
   split at h
   · simp at h
   · rename_i f hf
     split at h <;> simp at h
     rename_i hc
-    exact ⟨f, hf, hc, h.symm⟩
+    exact ⟨f, hf, hc.1, h.symm⟩
+
+theorem step_saved {M : Nat} {s s' : St} {k f : Nat} (h : step M s (.saved k f) = some s') :
+    s.sav f = true ∧ s' = { s with sav := upd s.sav f false } := by
+  simp only [step] at h
+  split at h <;> simp at h
+  rename_i hc
+  exact ⟨hc, h.symm⟩
 
 theorem step_resumed {M : Nat} {s s' : St} {k : Nat} (h : step M s (.resumed k) = some s') :
     (s.phase k = .running ∧ s' = s) ∨
     (s.phase k = .yielding ∧ 0 < s.lb k ∧
       s' = { s with phase := upd s.phase k .running, lb := upd s.lb k 0 }) ∨
-    (s.phase k = .yielding ∧ s.lb k = 0 ∧ s.frm k = [] ∧ s.to k = [] ∧
+    (s.phase k = .yielding ∧ s.lb k = 0 ∧ s.frm k = [] ∧
       s' = { s with phase := upd s.phase k .running }) := by
   simp only [step] at h
   split at h
@@ -135,39 +151,104 @@ theorem step_resumed {M : Nat} {s s' : St} {k : Nat} (h : step M s (.resumed k) 
     exact Or.inl ⟨hp, h.symm⟩
   · rename_i hp
     split at h
-    · rename_i hl
-      simp at h
-      exact Or.inr (Or.inl ⟨hp, hl, h.symm⟩)
-    · rename_i hl
-      split at h <;> simp at h
-      rename_i hc
-      exact Or.inr (Or.inr ⟨hp, by omega, hc.1, hc.2, h.symm⟩)
+    · simp at h
+    · split at h
+      · rename_i hl
+        simp at h
+        exact Or.inr (Or.inl ⟨hp, hl, h.symm⟩)
+      · rename_i hl
+        split at h <;> simp at h
+        rename_i hc
+        exact Or.inr (Or.inr ⟨hp, by omega, hc, h.symm⟩)
   · simp at h
 
-theorem step_switch {M : Nat} {s s' : St} {k g : Nat} (h : step M s (.switch k g) = some s') :
-    s.phase k ≠ .running ∧ ∃ frm' to', next (s.frm k) (s.to k) = some (g, frm', to') ∧
-    s' = { s with frm := upd s.frm k frm', to := upd s.to k ((s.cur k).toList ++ to'),
-                  cur := upd s.cur k (some g), phase := upd s.phase k .running,
-                  lb := upd s.lb k 0 } := by
+theorem step_idle {M : Nat} {s s' : St} {k : Nat} (h : step M s (.idle k) = some s') :
+    s.phase k = .ending ∧ s.frm k = [] ∧ s' = s := by
+  simp only [step] at h
+  split at h <;> simp at h
+  rename_i hc
+  exact ⟨hc.1, hc.2.2.2, h.symm⟩
+
+theorem step_pop {M : Nat} {s s' : St} {k g : Nat} (h : step M s (.pop k g) = some s') :
+    s.phase k ≠ .running ∧ (∃ frm' to', next (s.frm k) (s.to k) = some (g, frm', to')) ∧
+    s' = { s with hand := upd s.hand k (some g) } := by
   simp only [step] at h
   split at h
   · simp at h
-  · rename_i hp
+  · rename_i hc
     split at h
     · simp at h
     · rename_i g' frm' to' hn
       split at h <;> simp at h
       rename_i hg
       subst hg
-      exact ⟨hp, frm', to', hn, h.symm⟩
+      exact ⟨fun hp => hc (Or.inl hp), ⟨frm', to', hn⟩, h.symm⟩
+
+theorem step_pushed {M : Nat} {s s' : St} {k g : Nat} {w : Which}
+    (h : step M s (.pushed k w g) = some s') :
+    s.pend k = some (g, w) ∧ s' = { s with pend := upd s.pend k none } := by
+  simp only [step] at h
+  split at h <;> simp at h
+  rename_i hc
+  exact ⟨hc, h.symm⟩
+
+theorem step_skip {M : Nat} {s s' : St} {k g : Nat} (h : step M s (.skip k g) = some s') :
+    s.hand k = some g ∧ s.sav g = true ∧
+    ∃ frm' to', next (s.frm k) (s.to k) = some (g, frm', to') ∧
+    s' = { s with frm := upd s.frm k frm', to := upd s.to k (g :: to'),
+                  hand := upd s.hand k none, pend := upd s.pend k (some (g, .to)),
+                  lb := upd s.lb k 0 } := by
+  simp only [step] at h
+  split at h
+  · simp at h
+  · rename_i hc
+    split at h
+    · simp at h
+    · rename_i g' frm' to' hn
+      split at h <;> simp at h
+      rename_i hg
+      subst hg
+      refine ⟨?_, ?_, frm', to', hn, h.symm⟩
+      · cases hh : s.hand k with
+        | none => exact absurd (Or.inl (by simp [hh])) hc
+        | some x =>
+          by_cases hx : x = g
+          · rw [hx]
+          · exact absurd (Or.inl (by simp [hh, hx])) hc
+      · cases hs : s.sav g with
+        | true => rfl
+        | false => exact absurd (Or.inr hs) hc
+
+theorem step_switch {M : Nat} {s s' : St} {k g : Nat} (h : step M s (.switch k g) = some s') :
+    s.phase k ≠ .running ∧ s.sav g = false ∧
+    ∃ frm' to', next (s.frm k) (s.to k) = some (g, frm', to') ∧
+    s' = { s with frm := upd s.frm k frm', to := upd s.to k ((s.cur k).toList ++ to'),
+                  cur := upd s.cur k (some g), phase := upd s.phase k .running,
+                  lb := upd s.lb k 0, hand := upd s.hand k none,
+                  pend := upd s.pend k ((s.cur k).map (fun c => (c, Which.to))) } := by
+  simp only [step] at h
+  split at h
+  · simp at h
+  · rename_i hc
+    split at h
+    · simp at h
+    · rename_i g' frm' to' hn
+      split at h <;> simp at h
+      rename_i hg
+      subst hg
+      refine ⟨fun hp => hc (Or.inl hp), ?_, frm', to', hn, h.symm⟩
+      cases hs : s.sav g with
+      | false => rfl
+      | true => exact absurd (Or.inr (Or.inr hs)) hc
 
 theorem step_steal {M : Nat} {s s' : St} {k j f : Nat} {w : Which}
     (h : step M s (.steal k j w f) = some s') :
     k ≠ j ∧ s.phase k ≠ .running ∧ ∃ rest n, src s j w = rest ++ [f] ∧
-    lbNext M (s.frm k) (s.to k) (s.lb k) = some n ∧
+    lbNext M (s.frm k) (s.lb k) = some n ∧
     s' = { (setSrc s j w rest) with
              frm := upd (setSrc s j w rest).frm k (f :: (setSrc s j w rest).frm k),
-             lb := upd s.lb k n, loc := upd s.loc f (some k) } := by
+             lb := upd s.lb k n, pend := upd s.pend k (some (f, .frm)),
+             loc := upd s.loc f (some k) } := by
   simp only [step] at h
   split at h
   · simp at h
@@ -177,17 +258,18 @@ theorem step_steal {M : Nat} {s s' : St} {k j f : Nat} {w : Which}
       split at h <;> simp at h
       rename_i hf
       subst hf
-      refine ⟨fun hkj => hc (Or.inl hkj), fun hp => hc (Or.inr hp), rest, n, popTop_some hp, hl, ?_⟩
+      refine ⟨fun hkj => hc (Or.inl hkj), fun hp => hc (Or.inr (Or.inl hp)), rest, n,
+        popTop_some hp, hl, ?_⟩
       rw [← h]
       cases w <;> rfl
     · simp at h
 
-theorem lbNext_some {M : Nat} {frm to : List Nat} {lb n : Nat}
-    (h : lbNext M frm to lb = some n) :
-    (frm = [] ∧ to = [] ∧ n = 1) ∨ (¬ (frm = [] ∧ to = []) ∧ 0 < lb ∧ lb < M ∧ n = lb + 1) := by
+theorem lbNext_some {M : Nat} {frm : List Nat} {lb n : Nat}
+    (h : lbNext M frm lb = some n) :
+    (frm = [] ∧ n = 1) ∨ (frm ≠ [] ∧ 0 < lb ∧ lb < M ∧ n = lb + 1) := by
   simp only [lbNext] at h
   split at h
-  · rename_i hc; simp at h; exact Or.inl ⟨hc.1, hc.2, h.symm⟩
+  · rename_i hc; simp at h; exact Or.inl ⟨hc, h.symm⟩
   · rename_i hc
     split at h <;> simp at h
     rename_i hl
@@ -205,7 +287,6 @@ structure Inv (M : Nat) (s : St) : Prop where
   busyIff : ∀ g, g ∈ s.busy ↔ s.loc g ≠ none
   busyNodup : s.busy.Nodup
   lbPhase : ∀ k, 0 < s.lb k → s.phase k ≠ .running
-  lbTo : ∀ k, 0 < s.lb k → s.to k = []
   lbLen : ∀ k, 0 < s.lb k → (s.frm k).length ≤ s.lb k
   lbMax : ∀ k, s.lb k ≤ max M 1
   endCur : ∀ k, s.phase k = .ending → s.cur k = none
@@ -216,41 +297,49 @@ theorem inv_init (M : Nat) : Inv M init := by
 theorem inv_sched {M : Nat} {s s' : St} {k f : Nat} (hI : Inv M s)
     (h : step M s (.sched k f) = some s') : Inv M s' := by
   obtain ⟨hp, hc, hl, rfl⟩ := step_sched h
-  obtain ⟨h1, h2, h3, h4, h5, h6, h7, h8, h9, h10, h11, h12, h13⟩ := hI
+  obtain ⟨h1, h2, h3, h4, h5, h6, h7, h8, h9, h11, h12, h13⟩ := hI
   constructor <;> simp only [] <;> grind [upd]
 
 theorem inv_yield {M : Nat} {s s' : St} {k : Nat} (hI : Inv M s)
     (h : step M s (.yield k) = some s') : Inv M s' := by
   obtain ⟨hp, hc, rfl⟩ := step_yield h
-  obtain ⟨h1, h2, h3, h4, h5, h6, h7, h8, h9, h10, h11, h12, h13⟩ := hI
+  obtain ⟨h1, h2, h3, h4, h5, h6, h7, h8, h9, h11, h12, h13⟩ := hI
   constructor <;> simp only [] <;> grind [upd]
 
-theorem inv_finish {M : Nat} {s s' : St} {k : Nat} (hI : Inv M s)
-    (h : step M s (.finish k) = some s') : Inv M s' := by
+theorem inv_finish {M : Nat} {s s' : St} {k : Nat} {sv : Bool} (hI : Inv M s)
+    (h : step M s (.finish k sv) = some s') : Inv M s' := by
   obtain ⟨f, hc, hp, rfl⟩ := step_finish h
-  obtain ⟨h1, h2, h3, h4, h5, h6, h7, h8, h9, h10, h11, h12, h13⟩ := hI
+  obtain ⟨h1, h2, h3, h4, h5, h6, h7, h8, h9, h11, h12, h13⟩ := hI
   constructor <;> simp only [] <;> grind [upd, List.Nodup.mem_erase_iff, List.Nodup.erase]
 
 theorem inv_resumed {M : Nat} {s s' : St} {k : Nat} (hI : Inv M s)
     (h : step M s (.resumed k) = some s') : Inv M s' := by
-  obtain ⟨h1, h2, h3, h4, h5, h6, h7, h8, h9, h10, h11, h12, h13⟩ := hI
-  rcases step_resumed h with ⟨hp, rfl⟩ | ⟨hp, hl, rfl⟩ | ⟨hp, hl, hf, ht, rfl⟩
+  obtain ⟨h1, h2, h3, h4, h5, h6, h7, h8, h9, h11, h12, h13⟩ := hI
+  rcases step_resumed h with ⟨hp, rfl⟩ | ⟨hp, hl, rfl⟩ | ⟨hp, hl, hf, rfl⟩
   · constructor <;> assumption
   · constructor <;> simp only [] <;> grind [upd]
   · constructor <;> simp only [] <;> grind [upd]
 
+/-- events that touch only `hand` / `pend` / `sav` -/
+theorem inv_ghost {M : Nat} {s : St} (hI : Inv M s) (hand : Nat → Option Nat)
+    (pend : Nat → Option (Nat × Which)) (sav : Nat → Bool) :
+    Inv M { s with hand := hand, pend := pend, sav := sav } := by
+  obtain ⟨h1, h2, h3, h4, h5, h6, h7, h8, h9, h11, h12, h13⟩ := hI
+  constructor <;> assumption
+
 theorem inv_switch_aux {M : Nat} {s : St} {k g : Nat} {frm' to' : List Nat} (hI : Inv M s)
+    (hand : Nat → Option Nat) (pend : Nat → Option (Nat × Which))
     (hmem : ∀ x, (x ∈ frm' ∨ x ∈ to' ∨ x = g) ↔ (x ∈ s.frm k ∨ x ∈ s.to k ∨ s.cur k = some x))
     (hnd : (frm' ++ to').Nodup) (hg : g ∉ frm' ∧ g ∉ to') :
     Inv M { s with frm := upd s.frm k frm', to := upd s.to k to',
                    cur := upd s.cur k (some g), phase := upd s.phase k .running,
-                   lb := upd s.lb k 0 } := by
-  obtain ⟨h1, h2, h3, h4, h5, h6, h7, h8, h9, h10, h11, h12, h13⟩ := hI
+                   lb := upd s.lb k 0, hand := hand, pend := pend } := by
+  obtain ⟨h1, h2, h3, h4, h5, h6, h7, h8, h9, h11, h12, h13⟩ := hI
   constructor <;> simp only [] <;> grind [upd]
 
 theorem inv_switch {M : Nat} {s s' : St} {k g : Nat} (hI : Inv M s)
     (h : step M s (.switch k g) = some s') : Inv M s' := by
-  obtain ⟨hp, frm', to', hn, rfl⟩ := step_switch h
+  obtain ⟨hp, _, frm', to', hn, rfl⟩ := step_switch h
   apply inv_switch_aux hI
   all_goals
     have h5k := hI.nodup k
@@ -258,18 +347,36 @@ theorem inv_switch {M : Nat} {s s' : St} {k g : Nat} (hI : Inv M s)
     rcases next_some hn with ⟨hf, ht⟩ | ⟨hf, ht, ht'⟩ <;> cases hc : s.cur k <;>
       simp only [Option.toList] <;> grind
 
+theorem inv_skip_aux {M : Nat} {s : St} {k : Nat} {frm' to' : List Nat} (hI : Inv M s)
+    (hand : Nat → Option Nat) (pend : Nat → Option (Nat × Which))
+    (hmem : ∀ x, (x ∈ frm' ∨ x ∈ to') ↔ (x ∈ s.frm k ∨ x ∈ s.to k))
+    (hnd : (frm' ++ to').Nodup) :
+    Inv M { s with frm := upd s.frm k frm', to := upd s.to k to',
+                   hand := hand, pend := pend, lb := upd s.lb k 0 } := by
+  obtain ⟨h1, h2, h3, h4, h5, h6, h7, h8, h9, h11, h12, h13⟩ := hI
+  constructor <;> simp only [] <;> grind [upd]
+
+theorem inv_skip {M : Nat} {s s' : St} {k g : Nat} (hI : Inv M s)
+    (h : step M s (.skip k g) = some s') : Inv M s' := by
+  obtain ⟨_, _, frm', to', hn, rfl⟩ := step_skip h
+  apply inv_skip_aux hI
+  all_goals
+    have h5k := hI.nodup k
+    rcases next_some hn with ⟨hf, ht⟩ | ⟨hf, ht, ht'⟩ <;> grind
+
 theorem upd_eq_self {α : Type} (f : Nat → α) (i : Nat) : upd f i (f i) = f := by
   funext x; simp only [upd]; split <;> simp_all
 
 theorem inv_steal_aux {M : Nat} {s : St} {k j f n : Nat} {fj tj : List Nat} (hI : Inv M s)
+    (pend : Nat → Option (Nat × Which))
     (hkj : k ≠ j) (hp : s.phase k ≠ .running)
     (hmem : ∀ x, (x ∈ s.frm j ∨ x ∈ s.to j) ↔ (x = f ∨ x ∈ fj ∨ x ∈ tj))
     (hfm : ∀ x, x ∈ fj → x ∈ s.frm j) (htm : ∀ x, x ∈ tj → x ∈ s.to j)
     (hnd : (fj ++ tj).Nodup) (hf : f ∉ fj ∧ f ∉ tj) (hlen : fj.length ≤ (s.frm j).length)
-    (hn : (s.frm k = [] ∧ s.to k = [] ∧ n = 1) ∨ (0 < s.lb k ∧ s.lb k < M ∧ n = s.lb k + 1)) :
+    (hn : (s.frm k = [] ∧ n = 1) ∨ (0 < s.lb k ∧ s.lb k < M ∧ n = s.lb k + 1)) :
     Inv M { s with frm := upd (upd s.frm j fj) k (f :: s.frm k), to := upd s.to j tj,
-                   lb := upd s.lb k n, loc := upd s.loc f (some k) } := by
-  obtain ⟨h1, h2, h3, h4, h5, h6, h7, h8, h9, h10, h11, h12, h13⟩ := hI
+                   lb := upd s.lb k n, pend := pend, loc := upd s.loc f (some k) } := by
+  obtain ⟨h1, h2, h3, h4, h5, h6, h7, h8, h9, h11, h12, h13⟩ := hI
   have hfj : s.loc f = some j := by
     rcases (hmem f).mpr (Or.inl rfl) with h | h
     · exact h1 j f h
@@ -308,14 +415,6 @@ theorem inv_steal_aux {M : Nat} {s : St} {k j f n : Nat} {fj tj : List Nat} (hI 
   · intro g; rw [hloc]; grind
   · exact h8
   · intro i hi; rw [hlb] at hi; grind
-  · intro i hi; rw [hlb] at hi; rw [hto]
-    have htj : s.to j = [] → tj = [] := by
-      intro h0
-      apply List.eq_nil_iff_forall_not_mem.mpr
-      intro x hx
-      have := htm x hx
-      simp [h0] at this
-    grind
   · intro i hi; rw [hlb] at hi ⊢; rw [hfrm]; grind
   · intro i; rw [hlb]; grind
   · exact h13
@@ -324,19 +423,21 @@ theorem inv_steal {M : Nat} {s s' : St} {k j f : Nat} {w : Which} (hI : Inv M s)
     (h : step M s (.steal k j w f) = some s') : Inv M s' := by
   obtain ⟨hkj, hp, rest, n, hsrc, hlb, rfl⟩ := step_steal h
   have h5j := hI.nodup j
-  have hn : (s.frm k = [] ∧ s.to k = [] ∧ n = 1) ∨ (0 < s.lb k ∧ s.lb k < M ∧ n = s.lb k + 1) := by
+  have hn : (s.frm k = [] ∧ n = 1) ∨ (0 < s.lb k ∧ s.lb k < M ∧ n = s.lb k + 1) := by
     rcases lbNext_some hlb with h | h
     · exact Or.inl h
     · exact Or.inr h.2
   cases w with
   | frm =>
     simp only [src] at hsrc
-    have := inv_steal_aux (f := f) (fj := rest) (tj := s.to j) hI hkj hp
+    have := inv_steal_aux (f := f) (fj := rest) (tj := s.to j) hI
+      (upd s.pend k (some (f, .frm))) hkj hp
       (by grind) (by grind) (by grind) (by grind) (by grind) (by simp [hsrc]) hn
     simpa [setSrc, upd_eq_self, upd_other _ _ _ _ hkj] using this
   | to =>
     simp only [src] at hsrc
-    have := inv_steal_aux (f := f) (fj := s.frm j) (tj := rest) hI hkj hp
+    have := inv_steal_aux (f := f) (fj := s.frm j) (tj := rest) hI
+      (upd s.pend k (some (f, .frm))) hkj hp
       (by grind) (by grind) (by grind) (by grind) (by grind) (by simp) hn
     simpa [setSrc, upd_eq_self] using this
 
@@ -345,9 +446,14 @@ theorem inv_step {M : Nat} {s s' : St} {e : Ev} (hI : Inv M s) (h : step M s e =
   cases e with
   | sched k f => exact inv_sched hI h
   | yield k => exact inv_yield hI h
+  | pop k g => obtain ⟨_, _, rfl⟩ := step_pop h; exact inv_ghost hI _ _ _
+  | skip k g => exact inv_skip hI h
   | switch k g => exact inv_switch hI h
+  | pushed k w g => obtain ⟨_, rfl⟩ := step_pushed h; exact inv_ghost hI _ _ _
   | resumed k => exact inv_resumed hI h
-  | finish k => exact inv_finish hI h
+  | idle k => obtain ⟨_, _, rfl⟩ := step_idle h; exact hI
+  | finish k sv => exact inv_finish hI h
+  | saved k f => obtain ⟨_, rfl⟩ := step_saved h; exact inv_ghost hI _ _ _
   | steal k j w f => exact inv_steal hI h
 
 theorem inv_of_run {M : Nat} {es : List Ev} {s : St} (h : (sys M).run es = some s) : Inv M s :=
@@ -382,8 +488,25 @@ theorem pos_append_of_not_mem {f : Nat} {c l : List Nat} (h : f ∉ c) :
     simp only [List.cons_append, pos_cons, if_neg (Ne.symm h.1), ih h.2, List.length_cons]
     omega
 
-/-- `fiber_scheduler_next` + re-queueing the yielder `c`, seen from a queued `f` that is not
-    the fiber popped: `f` stays queued and loses at least one unit of rank. -/
+/-- `fiber_scheduler_next` + pushing `ys` (the re-queued yielder, the skipped fiber, or nothing)
+    onto `store_to`, seen from a queued `f` that is not the fiber popped: `f` stays queued and
+    loses at least one unit of rank. -/
+theorem rk_next_gen {frm to frm' to' : List Nat} {g f : Nat} (ys : List Nat)
+    (hn : next frm to = some (g, frm', to')) (hgf : g ≠ f) (hq : f ∈ frm ∨ f ∈ to)
+    (hys : f ∉ ys) (hlen : ys.length ≤ 1) :
+    (f ∈ frm' ∨ f ∈ ys ++ to') ∧ rk f frm' (ys ++ to') + 1 ≤ rk f frm to := by
+  rcases next_some hn with ⟨hf, ht⟩ | ⟨hf, ht, ht'⟩
+  · subst hf ht
+    by_cases h1 : f ∈ frm'
+    · simp [rk, h1, pos_cons, hgf]
+    · have hft : f ∈ to' := by simpa [Ne.symm hgf, h1] using hq
+      simp only [rk, h1, if_false, List.mem_cons, Ne.symm hgf, or_self, List.length_cons,
+        pos_append_of_not_mem hys]
+      refine ⟨Or.inr (by simp [hft]), by omega⟩
+  · subst hf ht ht'
+    have h1 : f ∈ frm' := by simpa [Ne.symm hgf] using hq
+    simp [rk, h1, pos_cons, hgf]
+
 theorem rk_next {frm to frm' to' : List Nat} {g f : Nat} (c : Option Nat)
     (hn : next frm to = some (g, frm', to')) (hgf : g ≠ f) (hq : f ∈ frm ∨ f ∈ to)
     (hc : c ≠ some f) :
@@ -392,17 +515,7 @@ theorem rk_next {frm to frm' to' : List Nat} {g f : Nat} (c : Option Nat)
     cases c with
     | none => simp
     | some x => simp at hc; simp [Option.toList, Ne.symm hc]
-  rcases next_some hn with ⟨hf, ht⟩ | ⟨hf, ht, ht'⟩
-  · subst hf ht
-    by_cases h1 : f ∈ frm'
-    · simp [rk, h1, pos_cons, hgf]
-    · have hft : f ∈ to' := by simpa [Ne.symm hgf, h1] using hq
-      simp only [rk, h1, if_false, List.mem_cons, Ne.symm hgf, or_self, List.length_cons,
-        pos_append_of_not_mem hcl.1]
-      refine ⟨Or.inr (by simp [hft]), by omega⟩
-  · subst hf ht ht'
-    have h1 : f ∈ frm' := by simpa [Ne.symm hgf] using hq
-    simp [rk, h1, pos_cons, hgf]
+  exact rk_next_gen c.toList hn hgf hq hcl.1 hcl.2
 
 /-- taking the top of one of the holder's deques (a fiber `h ≠ f`): the exact effect on `f` -/
 theorem rk_steal_frm {rest to : List Nat} {h f : Nat} (hhf : h ≠ f) :
@@ -425,6 +538,11 @@ def isSched : Ev → Bool
   | .sched _ _ => true
   | _ => false
 
+/-- `e` creates / wakes the fiber `f` itself -/
+def isSchedOf (f : Nat) : Ev → Bool
+  | .sched _ g => g = f
+  | _ => false
+
 /-- `e` is a steal of the fiber `f` itself -/
 def isStealOf (f : Nat) : Ev → Bool
   | .steal _ _ _ g => g = f
@@ -435,6 +553,11 @@ def isRunOf (f : Nat) : Ev → Bool
   | .switch _ g => g = f
   | _ => false
 
+/-- `e` skips `f` (found in state SAVING_STATE_TO_WAIT by fiber_scheduler_next) -/
+def isSkipOf (f : Nat) : Ev → Bool
+  | .skip _ g => g = f
+  | _ => false
+
 /-- `e` is a context switch on the thread that holds `f` in state `s` -/
 def holderSwitch (f : Nat) (s : St) : Ev → Bool
   | .switch k _ => s.loc f = some k
@@ -442,6 +565,9 @@ def holderSwitch (f : Nat) (s : St) : Ev → Bool
 
 /-- number of times `f` itself is stolen in an event list -/
 def stealsOf (f : Nat) (es : List Ev) : Nat := es.countP (isStealOf f)
+
+/-- number of fibers created or woken in an event list -/
+def scheds (es : List Ev) : Nat := es.countP isSched
 
 /-- Number of context switches ON THE THREAD HOLDING `f` AT THAT TIME along the run of `es`
     from `s` — summed over the holders `f` passes through. -/
@@ -458,12 +584,22 @@ def holderSwitches (M : Nat) (f : Nat) : St → List Ev → Nat
 /-- steals the holder may still add in its running load_balance call -/
 def slack (M : Nat) (s : St) (k : Nat) : Nat := if 0 < s.lb k then M - s.lb k else 0
 
-/-- potential of fiber `f`: nothing if it is gone; `2·#fibers` while it runs; its rank on its
-    holder plus the holder's load_balance slack while it is queued -/
+/-- 1 if thread `k` runs a fiber, 0 if it is in its maintenance loop / dispatching -/
+def cnt (s : St) (k : Nat) : Nat := if s.cur k = none then 0 else 1
+
+/-- potential of a queued fiber on explicit deques: `B` fibers exist, `c = cnt`, `sl = slack` -/
+def qpot (f : Nat) (frm to : List Nat) (B c sl : Nat) : Nat :=
+  if f ∈ frm then pos f frm + sl else 2 * (B - 1 - c) - pos f to
+
+/-- potential of fiber `f`: nothing if it is gone; `2·#fibers` while it runs; while it is queued,
+    in `schedule_from`: its position plus the holder's load_balance slack; in `store_to`:
+    `2·(#fibers − 1 − [holder runs a fiber]) − position` -/
 def pot (M : Nat) (f : Nat) (s : St) : Nat :=
   match s.loc f with
   | none => 0
-  | some k => if s.cur k = some f then 2 * s.busy.length else rankOn k f s + slack M s k
+  | some k =>
+    if s.cur k = some f then 2 * s.busy.length
+    else qpot f (s.frm k) (s.to k) s.busy.length (cnt s k) (slack M s k)
 
 theorem pot_none {M f : Nat} {s : St} (h : s.loc f = none) : pot M f s = 0 := by
   simp [pot, h]
@@ -473,8 +609,8 @@ theorem pot_cur {M f k : Nat} {s : St} (h : s.loc f = some k) (hc : s.cur k = so
   simp [pot, h, hc]
 
 theorem pot_queued {M f k : Nat} {s : St} (h : s.loc f = some k) (hc : s.cur k ≠ some f) :
-    pot M f s = rk f (s.frm k) (s.to k) + slack M s k := by
-  simp [pot, h, hc, rankOn_eq]
+    pot M f s = qpot f (s.frm k) (s.to k) s.busy.length (cnt s k) (slack M s k) := by
+  simp [pot, h, hc]
 
 theorem queued_of_loc {M f k : Nat} {s : St} (hI : Inv M s) (h : s.loc f = some k)
     (hc : s.cur k ≠ some f) : f ∈ s.frm k ∨ f ∈ s.to k := by
@@ -482,6 +618,56 @@ theorem queued_of_loc {M f k : Nat} {s : St} (hI : Inv M s) (h : s.loc f = some 
   · exact Or.inl h
   · exact Or.inr h
   · exact absurd h hc
+
+/-- what is queued on a thread, plus what it runs, exists -/
+theorem cap {M : Nat} {s : St} (hI : Inv M s) (k : Nat) :
+    (s.frm k).length + (s.to k).length + cnt s k ≤ s.busy.length := by
+  have hsub : ∀ x ∈ (s.cur k).toList ++ (s.frm k ++ s.to k), x ∈ s.busy := by
+    intro x hx
+    rw [hI.busyIff]
+    simp at hx
+    rcases hx with hx | hx | hx
+    · simp [hI.curLoc k x hx]
+    · simp [hI.frmLoc k x hx]
+    · simp [hI.toLoc k x hx]
+  have hnd : ((s.cur k).toList ++ (s.frm k ++ s.to k)).Nodup := by
+    cases hc : s.cur k with
+    | none => simpa using hI.nodup k
+    | some c =>
+      have := hI.curNot k c hc
+      simp only [Option.toList, List.cons_append, List.nil_append, List.nodup_cons,
+        List.mem_append, not_or]
+      exact ⟨this, hI.nodup k⟩
+  have hlen := length_le_of_nodup_subset hnd hsub
+  simp only [List.length_append] at hlen
+  have : ((s.cur k).toList).length = cnt s k := by
+    simp only [cnt]
+    cases s.cur k <;> simp
+  omega
+
+/-- `fiber_scheduler_next` + a push of `ys` onto `store_to` + `cnt` going from `c` to `c'`, seen
+    from a queued fiber that is not the one popped: it stays queued and its potential drops. -/
+theorem qpot_next {frm to frm' to' ys : List Nat} {g f B c c' sl : Nat}
+    (hn : next frm to = some (g, frm', to')) (hgf : g ≠ f) (hq : f ∈ frm ∨ f ∈ to)
+    (hys : f ∉ ys) (hnd : (frm ++ to).Nodup) (hcap : frm.length + to.length + c ≤ B)
+    (hcc : c ≤ c') (h1 : 1 ≤ ys.length + 2 * (c' - c)) :
+    qpot f frm' (ys ++ to') B c' 0 + 1 ≤ qpot f frm to B c sl := by
+  rcases next_some hn with ⟨hf, ht⟩ | ⟨hf, ht, ht'⟩
+  · subst hf ht
+    by_cases hf1 : f ∈ frm'
+    · simp [qpot, hf1, pos_cons, hgf]
+    · have hft : f ∈ to' := by simpa [Ne.symm hgf, hf1] using hq
+      have hp := Sched.pos_lt_length hft
+      simp only [qpot, hf1, if_false, List.mem_cons, Ne.symm hgf, or_self,
+        pos_append_of_not_mem hys]
+      simp only [List.length_cons] at hcap
+      omega
+  · subst hf ht ht'
+    have hf1 : f ∈ frm' := by simpa [Ne.symm hgf] using hq
+    have hp := Sched.pos_lt_length hf1
+    simp only [qpot, hf1, if_true, List.not_mem_nil, if_false, pos_cons, hgf, Nat.add_zero]
+    simp only [List.length_nil, List.length_cons] at hcap
+    omega
 
 theorem pot_yield {M f k : Nat} {s s' : St} (h : step M s (.yield k) = some s') :
     pot M f s' = pot M f s := by
@@ -493,9 +679,14 @@ theorem slack_upd_zero_le (M : Nat) (s : St) (k i : Nat) (ph : Nat → Phase) :
   simp only [slack, upd]
   split <;> simp_all
 
+theorem qpot_mono_sl {f : Nat} {frm to : List Nat} {B c sl sl' : Nat} (h : sl' ≤ sl) :
+    qpot f frm to B c sl' ≤ qpot f frm to B c sl := by
+  simp only [qpot]
+  split <;> omega
+
 theorem pot_resumed {M f k : Nat} {s s' : St} (h : step M s (.resumed k) = some s') :
     pot M f s' ≤ pot M f s := by
-  rcases step_resumed h with ⟨_, rfl⟩ | ⟨_, _, rfl⟩ | ⟨_, _, _, _, rfl⟩
+  rcases step_resumed h with ⟨_, rfl⟩ | ⟨_, _, rfl⟩ | ⟨_, _, _, rfl⟩
   · exact Nat.le_refl _
   · simp only [pot]
     cases hl : s.loc f with
@@ -504,14 +695,15 @@ theorem pot_resumed {M f k : Nat} {s s' : St} (h : step M s (.resumed k) = some 
       simp only []
       split
       · exact Nat.le_refl _
-      · have := slack_upd_zero_le M s k i (upd s.phase k .running)
-        simp only [rankOn_eq] at *
-        omega
+      · exact qpot_mono_sl (slack_upd_zero_le M s k i (upd s.phase k .running))
   · exact Nat.le_refl _
 
-theorem pot_finish {M f k : Nat} {s s' : St}
-    (h : step M s (.finish k) = some s') : pot M f s' ≤ pot M f s := by
+theorem pot_finish {M f k : Nat} {sv : Bool} {s s' : St} (hI : Inv M s)
+    (h : step M s (.finish k sv) = some s') : pot M f s' ≤ pot M f s := by
   obtain ⟨c, hc, hp, rfl⟩ := step_finish h
+  have hcb : c ∈ s.busy := by rw [hI.busyIff]; simp [hI.curLoc k c hc]
+  have hlen := List.length_erase_of_mem hcb
+  have hpos : 0 < s.busy.length := List.length_pos_of_mem hcb
   by_cases hfc : f = c
   · subst hfc
     rw [pot_none (by simp)]
@@ -523,16 +715,25 @@ theorem pot_finish {M f k : Nat} {s s' : St}
       by_cases hci : s.cur i = some f
       · have hik : i ≠ k := by intro h; subst h; rw [hc] at hci; simp at hci; exact hfc hci.symm
         rw [pot_cur hl' (by simp [upd, hik, hci]), pot_cur hl hci]
-        have := List.length_erase_le (a := c) (l := s.busy)
         simp only []
         omega
       · rw [pot_queued hl' (by simp only [upd]; split <;> simp_all), pot_queued hl hci]
-        exact Nat.le_refl _
+        simp only [qpot, slack, cnt]
+        by_cases hik : i = k
+        · subst hik
+          simp only [upd_same, hc]
+          split
+          · exact Nat.le_refl _
+          · simp; omega
+        · simp only [upd, if_neg hik]
+          split
+          · exact Nat.le_refl _
+          · omega
 
 theorem pot_switch {M f k g : Nat} {s s' : St} (hI : Inv M s)
     (h : step M s (.switch k g) = some s') (hgf : g ≠ f) :
     pot M f s' + (if holderSwitch f s (.switch k g) then 1 else 0) ≤ pot M f s := by
-  obtain ⟨hp, frm', to', hn, hs'⟩ := step_switch h
+  obtain ⟨hp, _, frm', to', hn, hs'⟩ := step_switch h
   have eloc : s'.loc = s.loc := by rw [hs']
   have ebusy : s'.busy = s.busy := by rw [hs']
   have ecur : s'.cur = upd s.cur k (some g) := by rw [hs']
@@ -548,38 +749,33 @@ theorem pot_switch {M f k g : Nat} {s s' : St} (hI : Inv M s)
     · subst hik
       simp only [holderSwitch, hl, decide_true, if_true]
       have hcg : s'.cur i ≠ some f := by simp [ecur, hgf]
-      rw [pot_queued hl' hcg]
-      simp only [efrm, eto, elb, upd_same, slack, Nat.lt_irrefl, if_false, Nat.add_zero]
+      have hcnt' : cnt s' i = 1 := by simp [cnt, ecur]
+      rw [pot_queued hl' hcg, hcnt']
+      simp only [efrm, eto, elb, ebusy, upd_same, slack, Nat.lt_irrefl, if_false]
+      have hcap := cap hI i
       by_cases hci : s.cur i = some f
       · rw [pot_cur hl hci]
         have hnot := hI.curNot i f hci
-        have hnd := hI.nodup i
         -- `f` was running: it is re-queued at the bottom of `store_to`
-        have hsub : ∀ x ∈ f :: (s.frm i ++ s.to i), x ∈ s.busy := by
-          intro x hx
-          rw [hI.busyIff]
-          simp at hx
-          rcases hx with rfl | hx | hx
-          · simp [hl]
-          · simp [hI.frmLoc i x hx]
-          · simp [hI.toLoc i x hx]
-        have hlen := length_le_of_nodup_subset (List.nodup_cons.mpr ⟨by simp [hnot], hnd⟩) hsub
-        simp only [List.length_cons, List.length_append] at hlen
-        rcases next_some hn with ⟨hf, ht⟩ | ⟨hf, ht, ht'⟩
-        · have hf' : f ∉ frm' := fun hx => hnot.1 (by simp [hf, hx])
-          simp only [hci, Option.toList, rk, hf', if_false, List.cons_append, List.nil_append,
-            pos_cons, if_true]
-          simp [hf] at hlen
-          omega
-        · have hf' : f ∉ frm' := fun hx => hnot.2 (by simp [ht, hx])
-          simp only [hci, Option.toList, rk, hf', if_false, List.cons_append, List.nil_append,
-            pos_cons, if_true]
-          simp [ht] at hlen
-          omega
+        have hf' : f ∉ frm' := by
+          rcases next_some hn with ⟨hf, ht⟩ | ⟨hf, ht, ht'⟩
+          · exact fun hx => hnot.1 (by simp [hf, hx])
+          · exact fun hx => hnot.2 (by simp [ht, hx])
+        have hc1 : cnt s i = 1 := by simp [cnt, hci]
+        simp only [hci, Option.toList, qpot, hf', if_false, List.cons_append, List.nil_append,
+          pos_cons, if_true]
+        omega
       · rw [pot_queued hl hci]
         have hq := queued_of_loc hI hl hci
-        have := (rk_next (s.cur i) hn hgf hq hci).2
-        omega
+        have hys : f ∉ (s.cur i).toList := by
+          cases hc : s.cur i with
+          | none => simp
+          | some x => rw [hc] at hci; simp at hci; simp [Option.toList, Ne.symm hci]
+        have hcc : cnt s i ≤ 1 := by simp only [cnt]; split <;> omega
+        have h1 : 1 ≤ ((s.cur i).toList).length + 2 * (1 - cnt s i) := by
+          simp only [cnt]
+          cases s.cur i <;> simp
+        exact qpot_next hn hgf hq hys (hI.nodup i) hcap hcc h1
     · have hne : ¬ (s.loc f = some k) := by rw [hl]; simp [hik]
       simp only [holderSwitch, hl, Option.some.injEq, hik, decide_false, Bool.false_eq_true,
         if_false, Nat.add_zero]
@@ -587,13 +783,43 @@ theorem pot_switch {M f k g : Nat} {s s' : St} (hI : Inv M s)
       · rw [pot_cur hl' (by simp [ecur, upd, hik, hci]), pot_cur hl hci, ebusy]
         exact Nat.le_refl _
       · rw [pot_queued hl' (by simp [ecur, upd, hik, hci]), pot_queued hl hci]
-        simp [efrm, eto, elb, upd, hik, slack]
+        simp [efrm, eto, elb, ebusy, ecur, upd, hik, slack, cnt]
+
+theorem pot_skip {M f k g : Nat} {s s' : St} (hI : Inv M s)
+    (h : step M s (.skip k g) = some s') (hgf : g ≠ f) : pot M f s' ≤ pot M f s := by
+  obtain ⟨_, _, frm', to', hn, hs'⟩ := step_skip h
+  have eloc : s'.loc = s.loc := by rw [hs']
+  have ebusy : s'.busy = s.busy := by rw [hs']
+  have ecur : s'.cur = s.cur := by rw [hs']
+  have efrm : s'.frm = upd s.frm k frm' := by rw [hs']
+  have eto : s'.to = upd s.to k (g :: to') := by rw [hs']
+  have elb : s'.lb = upd s.lb k 0 := by rw [hs']
+  clear hs'
+  cases hl : s.loc f with
+  | none => rw [pot_none (eloc ▸ hl)]; exact Nat.zero_le _
+  | some i =>
+    have hl' : s'.loc f = some i := eloc ▸ hl
+    by_cases hci : s.cur i = some f
+    · rw [pot_cur hl' (ecur ▸ hci), pot_cur hl hci, ebusy]
+      exact Nat.le_refl _
+    · rw [pot_queued hl' (ecur ▸ hci), pot_queued hl hci]
+      have hcnt : cnt s' i = cnt s i := by simp [cnt, ecur]
+      rw [hcnt, ebusy]
+      by_cases hik : i = k
+      · subst hik
+        simp only [efrm, eto, elb, upd_same, slack, Nat.lt_irrefl, if_false]
+        have hq := queued_of_loc hI hl hci
+        have := qpot_next (ys := [g]) (c' := cnt s i) (sl := if 0 < s.lb i then M - s.lb i else 0)
+          hn hgf hq (by simp [Ne.symm hgf]) (hI.nodup i) (cap hI i) (Nat.le_refl _) (by simp)
+        simp only [List.cons_append, List.nil_append] at this
+        omega
+      · simp [efrm, eto, elb, upd, hik, slack]
 
 /-- field-wise effect of an accepted steal -/
 theorem step_steal_eff {M : Nat} {s s' : St} {k j f : Nat} {w : Which}
     (h : step M s (.steal k j w f) = some s') :
     k ≠ j ∧ s.phase k ≠ .running ∧ ∃ rest n, src s j w = rest ++ [f] ∧
-    lbNext M (s.frm k) (s.to k) (s.lb k) = some n ∧
+    lbNext M (s.frm k) (s.lb k) = some n ∧
     s'.cur = s.cur ∧ s'.busy = s.busy ∧ s'.phase = s.phase ∧
     s'.loc = upd s.loc f (some k) ∧ s'.lb = upd s.lb k n ∧
     s'.frm k = f :: s.frm k ∧ s'.to k = s.to k ∧
@@ -616,7 +842,7 @@ theorem pot_steal {M f k j h : Nat} {w : Which} {s s' : St} (hI : Inv M s)
     | to => exact hI.toLoc j h (by simp only [src] at hsrc; simp [hsrc])
   have hn := lbNext_some hlb
   by_cases hhf : h = f
-  · -- `f` itself is stolen: bottom of the thief's `schedule_from`, rank 0
+  · -- `f` itself is stolen: bottom of the thief's `schedule_from`, position 0
     subst hhf
     have hl' : s'.loc h = some k := by simp [eloc]
     have hck : s'.cur k ≠ some h := by
@@ -624,7 +850,7 @@ theorem pot_steal {M f k j h : Nat} {w : Which} {s s' : St} (hI : Inv M s)
       have := hI.curLoc k h hc
       rw [hhj] at this; simp at this; exact hkj this.symm
     rw [pot_queued hl' hck, efk]
-    simp only [isStealOf, decide_true, if_true, rk, List.mem_cons, true_or, pos_cons, slack, elb,
+    simp only [isStealOf, decide_true, if_true, qpot, List.mem_cons, true_or, pos_cons, slack, elb,
       upd_same]
     have : 0 < n := by rcases hn with h | h <;> omega
     simp only [this, if_true]
@@ -640,19 +866,24 @@ theorem pot_steal {M f k j h : Nat} {w : Which} {s s' : St} (hI : Inv M s)
       · rw [pot_cur hl' (ecur ▸ hci), pot_cur hl hci, ebusy]
         exact Nat.le_refl _
       · rw [pot_queued hl' (ecur ▸ hci), pot_queued hl hci]
+        have hcnt : cnt s' i = cnt s i := by simp [cnt, ecur]
+        rw [hcnt, ebusy]
         have hq := queued_of_loc hI hl hci
         by_cases hik : i = k
-        · -- the holder itself steals one more: only inside its load_balance call
+        · -- the holder itself steals one more
           subst hik
-          rcases hn with ⟨h1, h2, _⟩ | ⟨_, h1, h2, h3⟩
-          · simp [h1, h2] at hq
-          · have hto := hI.lbTo i h1
-            have hfi : f ∈ s.frm i := by simpa [hto] using hq
-            simp only [efk, etk, rk, List.mem_cons, hfi, or_true, if_true, pos_cons, hhf,
-              if_false, slack, elb, upd_same, h1]
-            have : 0 < n := by omega
-            simp only [this, if_true]
-            omega
+          rw [efk, etk]
+          by_cases hfi : f ∈ s.frm i
+          · -- `f` is loot of the load_balance call in progress
+            rcases hn with ⟨h1, _⟩ | ⟨_, h1, h2, h3⟩
+            · simp [h1] at hfi
+            · simp only [qpot, List.mem_cons, hfi, or_true, if_true, pos_cons, hhf,
+                if_false, slack, elb, upd_same, h1]
+              have : 0 < n := by omega
+              simp only [this, if_true]
+              omega
+          · -- `f` waits in `store_to`: the loot will be run first, but it existed before
+            simp [qpot, hfi, hfh]
         · have hlbi : s'.lb i = s.lb i := by simp [elb, upd, hik]
           have hsl : slack M s' i = slack M s i := by simp [slack, hlbi]
           rw [hsl]
@@ -662,36 +893,158 @@ theorem pot_steal {M f k j h : Nat} {w : Which} {s s' : St} (hI : Inv M s)
             cases w with
             | frm =>
               simp only [src] at hsrc
-              rw [(ewf rfl).1, (ewf rfl).2, hsrc, rk_steal_frm hhf]
-              omega
+              rw [(ewf rfl).1, (ewf rfl).2, hsrc]
+              simp only [qpot, List.mem_append, List.mem_singleton, hfh, or_false]
+              split
+              · rename_i hfr; rw [pos_append_of_mem _ hfr]; exact Nat.le_refl _
+              · exact Nat.le_refl _
             | to =>
               simp only [src] at hsrc
               rw [(ewt rfl).1, (ewt rfl).2, hsrc]
-              have hq' : f ∈ s.frm i ∨ f ∈ rest := by
-                rcases hq with h | h
-                · exact Or.inl h
-                · rw [hsrc] at h; simp [hfh] at h; exact Or.inr h
-              rw [rk_steal_to hq']
-              exact Nat.le_refl _
+              simp only [qpot]
+              split
+              · exact Nat.le_refl _
+              · rename_i hfr
+                have hft : f ∈ rest := by
+                  rcases hq with h | h
+                  · exact absurd h hfr
+                  · rw [hsrc] at h; simpa [hfh] using h
+                rw [pos_append_of_mem _ hft]
+                exact Nat.le_refl _
           · rw [(eoth i hik hij).1, (eoth i hik hij).2]
             exact Nat.le_refl _
 
-/-- One step, seen from fiber `f`: a context switch on the thread that holds `f` costs one
-    unit of potential; only a steal of `f` itself may raise it, by at most `maxSteal - 1`.
-    (No `sched`, and `f` is not switched to.) -/
-theorem pot_step {M f : Nat} {s s' : St} {e : Ev} (hI : Inv M s) (h : step M s e = some s')
-    (hns : isSched e = false) (hnr : isRunOf f e = false) :
-    pot M f s' + (if holderSwitch f s e then 1 else 0) ≤
-      pot M f s + (if isStealOf f e then M - 1 else 0) := by
+/-- a wake-up / creation of ANOTHER fiber raises the potential by at most 2 -/
+theorem pot_sched {M f k g : Nat} {s s' : St}
+    (h : step M s (.sched k g) = some s') (hgf : g ≠ f) : pot M f s' ≤ pot M f s + 2 := by
+  obtain ⟨_, hck, hlg, hs'⟩ := step_sched h
+  have eloc : s'.loc = upd s.loc g (some k) := by rw [hs']
+  have ebusy : s'.busy = g :: s.busy := by rw [hs']
+  have ecur : s'.cur = s.cur := by rw [hs']
+  have efrm : s'.frm = s.frm := by rw [hs']
+  have eto : s'.to = upd s.to k (g :: s.to k) := by rw [hs']
+  have elb : s'.lb = s.lb := by rw [hs']
+  clear hs'
+  have hfg : f ≠ g := fun e => hgf e.symm
+  cases hl : s.loc f with
+  | none => rw [pot_none (by simp [eloc, upd, hfg, hl])]; exact Nat.zero_le _
+  | some i =>
+    have hl' : s'.loc f = some i := by simp [eloc, upd, hfg, hl]
+    by_cases hci : s.cur i = some f
+    · rw [pot_cur hl' (ecur ▸ hci), pot_cur hl hci, ebusy]
+      simp only [List.length_cons]
+      omega
+    · rw [pot_queued hl' (ecur ▸ hci), pot_queued hl hci]
+      simp only [qpot, slack, cnt, ebusy, ecur, efrm, eto, elb, List.length_cons]
+      by_cases hik : i = k
+      · subst hik
+        simp only [upd_same, pos_cons, hgf, if_false]
+        split
+        · omega
+        · omega
+      · simp only [upd, if_neg hik]
+        split
+        · omega
+        · omega
+
+/-! ### a ready fiber stays ready, and is never skipped -/
+
+/-- `f`'s context is saved (its state word is not SAVING_STATE_TO_WAIT), or `f` is nowhere -/
+def Ready (f : Nat) (s : St) : Prop := s.sav f = false ∨ s.loc f = none
+
+/-- only the end of `f`'s own run makes it SAVING_STATE_TO_WAIT, and then it is nowhere until it
+    is woken (`sched _ f`) -/
+theorem ready_step {M f : Nat} {s s' : St} {e : Ev} (hI : Inv M s) (h : step M s e = some s')
+    (hns : isSchedOf f e = false) (hr : Ready f s) : Ready f s' := by
   cases e with
-  | sched k g => simp [isSched] at hns
-  | yield k => simp [holderSwitch, isStealOf, pot_yield h]
-  | resumed k => simpa [holderSwitch, isStealOf] using pot_resumed h
-  | finish k => simpa [holderSwitch, isStealOf] using pot_finish h
+  | sched k g =>
+    obtain ⟨_, _, _, rfl⟩ := step_sched h
+    have hgf : f ≠ g := by intro e; simp [isSchedOf, e] at hns
+    simpa [Ready, upd, hgf] using hr
+  | yield k => obtain ⟨_, _, rfl⟩ := step_yield h; exact hr
+  | pop k g => obtain ⟨_, _, rfl⟩ := step_pop h; exact hr
+  | skip k g => obtain ⟨_, _, _, _, _, rfl⟩ := step_skip h; exact hr
+  | switch k g => obtain ⟨_, _, _, _, _, rfl⟩ := step_switch h; exact hr
+  | pushed k w g => obtain ⟨_, rfl⟩ := step_pushed h; exact hr
+  | resumed k =>
+    rcases step_resumed h with ⟨_, rfl⟩ | ⟨_, _, rfl⟩ | ⟨_, _, _, rfl⟩ <;> exact hr
+  | idle k => obtain ⟨_, _, rfl⟩ := step_idle h; exact hr
+  | finish k sv =>
+    obtain ⟨c, _, _, rfl⟩ := step_finish h
+    by_cases hfc : f = c
+    · right; simp [hfc]
+    · simpa [Ready, upd, hfc] using hr
+  | saved k g =>
+    obtain ⟨_, rfl⟩ := step_saved h
+    rcases hr with hr | hr
+    · left; simp only [upd]; split <;> simp_all
+    · exact Or.inr hr
+  | steal k j w g =>
+    obtain ⟨_, _, rest, n, hsrc, _, hs'⟩ := step_steal h
+    have esav : s'.sav = s.sav := by rw [hs']; cases w <;> rfl
+    have eloc : s'.loc = upd s.loc g (some k) := by rw [hs']
+    have hgj : s.loc g = some j := by
+      cases w with
+      | frm => exact hI.frmLoc j g (by simp only [src] at hsrc; simp [hsrc])
+      | to => exact hI.toLoc j g (by simp only [src] at hsrc; simp [hsrc])
+    rcases hr with hr | hr
+    · exact Or.inl (esav ▸ hr)
+    · have hfg : f ≠ g := by intro e; rw [e, hgj] at hr; simp at hr
+      right; rw [eloc]; simp [upd, hfg, hr]
+
+/-- a ready fiber is never found in state SAVING_STATE_TO_WAIT by fiber_scheduler_next -/
+theorem not_skip_of_ready {M f k : Nat} {s s' : St} (hI : Inv M s) (hr : Ready f s)
+    (h : step M s (.skip k f) = some s') : False := by
+  obtain ⟨_, hsv, frm', to', hn, _⟩ := step_skip h
+  have hq : f ∈ s.frm k ∨ f ∈ s.to k := by
+    rcases next_some hn with ⟨hf, _⟩ | ⟨_, ht, _⟩
+    · left; simp [hf]
+    · right; simp [ht]
+  have hl : s.loc f = some k := by
+    rcases hq with hq | hq
+    · exact hI.frmLoc k f hq
+    · exact hI.toLoc k f hq
+  rcases hr with hr | hr
+  · rw [hr] at hsv; simp at hsv
+  · rw [hl] at hr; simp at hr
+
+/-! ### one step, many steps -/
+
+/-- One step, seen from fiber `f`: a context switch on the thread that holds `f` costs one
+    unit of potential; only a steal of `f` itself may raise it, by at most `maxSteal - 1`, and
+    the creation / wake-up of another fiber, by 2.  (`f` itself is not woken, not switched
+    to, and not skipped.) -/
+theorem pot_step {M f : Nat} {s s' : St} {e : Ev} (hI : Inv M s) (h : step M s e = some s')
+    (hns : isSchedOf f e = false) (hnr : isRunOf f e = false) (hnk : isSkipOf f e = false) :
+    pot M f s' + (if holderSwitch f s e then 1 else 0) ≤
+      pot M f s + (if isStealOf f e then M - 1 else 0) + (if isSched e then 2 else 0) := by
+  cases e with
+  | sched k g =>
+    have hgf : g ≠ f := by simpa [isSchedOf] using hns
+    simpa [holderSwitch, isStealOf, isSched] using pot_sched h hgf
+  | yield k => simp [holderSwitch, isStealOf, isSched, pot_yield h]
+  | pop k g =>
+    obtain ⟨_, _, rfl⟩ := step_pop h
+    have e : pot M f { s with hand := upd s.hand k (some g) } = pot M f s := rfl
+    simp [holderSwitch, isStealOf, isSched, e]
+  | pushed k w g =>
+    obtain ⟨_, rfl⟩ := step_pushed h
+    have e : pot M f { s with pend := upd s.pend k none } = pot M f s := rfl
+    simp [holderSwitch, isStealOf, isSched, e]
+  | idle k => obtain ⟨_, _, rfl⟩ := step_idle h; simp [holderSwitch, isStealOf, isSched]
+  | saved k g =>
+    obtain ⟨_, rfl⟩ := step_saved h
+    have e : pot M f { s with sav := upd s.sav g false } = pot M f s := rfl
+    simp [holderSwitch, isStealOf, isSched, e]
+  | resumed k => simpa [holderSwitch, isStealOf, isSched] using pot_resumed h
+  | finish k sv => simpa [holderSwitch, isStealOf, isSched] using pot_finish hI h
+  | skip k g =>
+    have hgf : g ≠ f := by simpa [isSkipOf] using hnk
+    simpa [holderSwitch, isStealOf, isSched] using pot_skip hI h hgf
   | switch k g =>
     have hgf : g ≠ f := by simpa [isRunOf] using hnr
-    simpa [isStealOf] using pot_switch hI h hgf
-  | steal k j w g => simpa [holderSwitch] using pot_steal hI h
+    simpa [isStealOf, isSched] using pot_switch hI h hgf
+  | steal k j w g => simpa [holderSwitch, isSched] using pot_steal hI h
 
 theorem inv_runFrom {M : Nat} : ∀ (es : List Ev) (s s' : St), Inv M s →
     (sys M).runFrom s es = some s' → Inv M s' := by
@@ -707,32 +1060,51 @@ theorem inv_runFrom {M : Nat} : ∀ (es : List Ev) (s s' : St), Inv M s →
       simp [hst] at h
       exact ih s1 s' (inv_step hI hst) h
 
-/-- Along any accepted `sched`-free continuation in which `f` is not switched to:
-    `#(switches on f's holder) ≤ pot f s − pot f s' + (maxSteal − 1)·#(steals of f)`. -/
-theorem pot_run {M f : Nat} : ∀ (es : List Ev) (s s' : St), Inv M s →
-    (sys M).runFrom s es = some s' → (∀ e ∈ es, isSched e = false) →
+/-- Along any accepted continuation in which the ready fiber `f` is neither woken (it is not
+    parked) nor switched to:
+    `#(switches on f's holder) ≤ pot f s − pot f s' + (maxSteal − 1)·#(steals of f) + 2·#(sched)`. -/
+theorem pot_run {M f : Nat} : ∀ (es : List Ev) (s s' : St), Inv M s → Ready f s →
+    (sys M).runFrom s es = some s' → (∀ e ∈ es, isSchedOf f e = false) →
     (∀ e ∈ es, isRunOf f e = false) →
-    pot M f s' + holderSwitches M f s es ≤ pot M f s + (M - 1) * stealsOf f es := by
+    pot M f s' + holderSwitches M f s es ≤
+      pot M f s + (M - 1) * stealsOf f es + 2 * scheds es := by
   intro es
   induction es with
   | nil =>
-    intro s s' _ h _ _
-    simp [Sys.runFrom] at h; subst h; simp [holderSwitches, stealsOf]
+    intro s s' _ _ h _ _
+    simp [Sys.runFrom] at h; subst h; simp [holderSwitches, stealsOf, scheds]
   | cons e es ih =>
-    intro s s' hI h hns hnr
+    intro s s' hI hR h hns hnr
     simp only [Sys.runFrom] at h
     cases hst : (sys M).step s e with
     | none => simp [hst] at h
     | some s1 =>
       simp [hst] at h
       have hst' : step M s e = some s1 := hst
-      have h1 := pot_step hI hst' (hns e (by simp)) (hnr e (by simp))
-      have h2 := ih s1 s' (inv_step hI hst') h (fun e' he' => hns e' (by simp [he']))
-        (fun e' he' => hnr e' (by simp [he']))
-      simp only [holderSwitches, hst', stealsOf, List.countP_cons] at *
-      cases hso : isStealOf f e <;> simp [hso] at h1 ⊢
+      have hnk : isSkipOf f e = false := by
+        cases e with
+        | skip k g =>
+          simp only [isSkipOf, decide_eq_false_iff_not]
+          intro hgf
+          subst hgf
+          exact not_skip_of_ready hI hR hst'
+        | _ => rfl
+      have h1 := pot_step hI hst' (hns e (by simp)) (hnr e (by simp)) hnk
+      have h2 := ih s1 s' (inv_step hI hst') (ready_step hI hst' (hns e (by simp)) hR) h
+        (fun e' he' => hns e' (by simp [he'])) (fun e' he' => hnr e' (by simp [he']))
+      simp only [holderSwitches, hst', stealsOf, scheds, List.countP_cons] at *
+      cases hso : isStealOf f e <;> cases hsc : isSched e <;> simp [hso, hsc] at h1 ⊢
+      · omega
       · omega
       · rw [Nat.mul_add]; omega
+      · rw [Nat.mul_add]; omega
+
+theorem scheds_eq_zero {es : List Ev} (h : ∀ e ∈ es, isSched e = false) : scheds es = 0 := by
+  simp only [scheds, List.countP_eq_zero]
+  intro e he; simp [h e he]
+
+theorem isSchedOf_of_isSched {f : Nat} {e : Ev} (h : isSched e = false) : isSchedOf f e = false := by
+  cases e <;> simp_all [isSched, isSchedOf]
 
 /-! ### the clauses of the multi-thread statement, one step at a time -/
 
@@ -740,9 +1112,14 @@ theorem pot_run {M f : Nat} : ∀ (es : List Ev) (s s' : St), Inv M s →
 def actor : Ev → Nat
   | .sched k _ => k
   | .yield k => k
+  | .pop k _ => k
+  | .skip k _ => k
   | .switch k _ => k
+  | .pushed k _ _ => k
   | .resumed k => k
-  | .finish k => k
+  | .idle k => k
+  | .finish k _ => k
+  | .saved k _ => k
   | .steal k _ _ _ => k
 
 /-- the victim of a steal -/
@@ -760,11 +1137,16 @@ theorem frame {M : Nat} {s s' : St} {e : Ev} {k : Nat} (h : step M s e = some s'
   cases e with
   | sched j f => obtain ⟨_, _, _, rfl⟩ := step_sched h; simp [upd, hk (a := j) rfl]
   | yield j => obtain ⟨_, _, rfl⟩ := step_yield h; simp [upd, hk (a := j) rfl]
-  | finish j => obtain ⟨_, _, _, rfl⟩ := step_finish h; simp [upd, hk (a := j) rfl]
+  | pop j g => obtain ⟨_, _, rfl⟩ := step_pop h; simp
+  | pushed j w g => obtain ⟨_, rfl⟩ := step_pushed h; simp
+  | idle j => obtain ⟨_, _, rfl⟩ := step_idle h; simp
+  | saved j g => obtain ⟨_, rfl⟩ := step_saved h; simp
+  | finish j sv => obtain ⟨_, _, _, rfl⟩ := step_finish h; simp [upd, hk (a := j) rfl]
   | resumed j =>
-    rcases step_resumed h with ⟨_, rfl⟩ | ⟨_, _, rfl⟩ | ⟨_, _, _, _, rfl⟩ <;>
+    rcases step_resumed h with ⟨_, rfl⟩ | ⟨_, _, rfl⟩ | ⟨_, _, _, rfl⟩ <;>
       simp [upd, hk (a := j) rfl]
-  | switch j g => obtain ⟨_, _, _, _, rfl⟩ := step_switch h; simp [upd, hk (a := j) rfl]
+  | skip j g => obtain ⟨_, _, _, _, _, rfl⟩ := step_skip h; simp [upd, hk (a := j) rfl]
+  | switch j g => obtain ⟨_, _, _, _, _, rfl⟩ := step_switch h; simp [upd, hk (a := j) rfl]
   | steal j i w f =>
     obtain ⟨_, _, rest, n, _, _, ecur, _, eph, _, elb, _, _, eoth, _, _⟩ := step_steal_eff h
     have h1 : k ≠ j := hk (a := j) rfl
@@ -775,7 +1157,7 @@ theorem frame {M : Nat} {s s' : St} {e : Ev} {k : Nat} (h : step M s e = some s'
 theorem rank_switch {M : Nat} {s s' : St} {k g f : Nat} (hI : Inv M s) (hq : QueuedOn k f s)
     (h : step M s (.switch k g) = some s') (hgf : g ≠ f) :
     QueuedOn k f s' ∧ rankOn k f s' < rankOn k f s := by
-  obtain ⟨_, frm', to', hn, rfl⟩ := step_switch h
+  obtain ⟨_, _, frm', to', hn, rfl⟩ := step_switch h
   have hc : s.cur k ≠ some f := by
     intro hc
     have := hI.curNot k f hc
@@ -784,6 +1166,18 @@ theorem rank_switch {M : Nat} {s s' : St} {k g f : Nat} (hI : Inv M s) (hq : Que
     · exact this.2 h
   have := rk_next (s.cur k) hn hgf hq hc
   simp only [QueuedOn, rankOn_eq, upd_same]
+  exact ⟨this.1, by omega⟩
+
+/-- (a') fiber_scheduler_next skips another fiber (SAVING_STATE_TO_WAIT) on the holder: no
+    context switch, `f` stays queued and its rank drops -/
+theorem rank_skip {M : Nat} {s s' : St} {k g f : Nat} (hq : QueuedOn k f s)
+    (h : step M s (.skip k g) = some s') (hgf : g ≠ f) :
+    QueuedOn k f s' ∧ rankOn k f s' < rankOn k f s := by
+  obtain ⟨_, _, frm', to', hn, rfl⟩ := step_skip h
+  have := rk_next_gen [g] hn hgf hq (by simp [Ne.symm hgf]) (by simp)
+  simp only [QueuedOn, rankOn_eq, upd_same]
+  have h2 := this.2
+  simp only [List.cons_append, List.nil_append] at h2
   exact ⟨this.1, by omega⟩
 
 /-- (d) a steal of another fiber `h ≠ f` from `f`'s holder `k` takes the TOP of a deque, i.e. an
@@ -847,17 +1241,23 @@ theorem rank_other_thread {M : Nat} {s s' : St} {e : Ev} {k f : Nat} (hI : Inv M
     simp only [QueuedOn, rankOn_eq, h1, h2]
     exact ⟨hq, Nat.le_refl _⟩
 
-/-- events of the holder itself other than `switch` and `steal` do not move `f` -/
-theorem rank_own_other {M : Nat} {s s' : St} {e : Ev} {k f : Nat} (hI : Inv M s)
+/-- events of the holder itself other than `skip`, `switch` and `steal` do not move `f` -/
+theorem rank_own_other {M : Nat} {s s' : St} {e : Ev} {k f : Nat}
     (hq : QueuedOn k f s) (h : step M s e = some s') (ha : actor e = k)
-    (hns : isSched e = false) (hsw : ∀ g, e ≠ .switch k g) (hst : ∀ j w g, e ≠ .steal k j w g) :
+    (hns : isSched e = false) (hsk : ∀ g, e ≠ .skip k g) (hsw : ∀ g, e ≠ .switch k g)
+    (hst : ∀ j w g, e ≠ .steal k j w g) :
     QueuedOn k f s' ∧ rankOn k f s' = rankOn k f s := by
   cases e with
   | sched j g => simp [isSched] at hns
   | yield j => obtain ⟨_, _, rfl⟩ := step_yield h; exact ⟨hq, rfl⟩
-  | finish j => obtain ⟨_, _, _, rfl⟩ := step_finish h; exact ⟨hq, rfl⟩
+  | pop j g => obtain ⟨_, _, rfl⟩ := step_pop h; exact ⟨hq, rfl⟩
+  | pushed j w g => obtain ⟨_, rfl⟩ := step_pushed h; exact ⟨hq, rfl⟩
+  | idle j => obtain ⟨_, _, rfl⟩ := step_idle h; exact ⟨hq, rfl⟩
+  | saved j g => obtain ⟨_, rfl⟩ := step_saved h; exact ⟨hq, rfl⟩
+  | finish j sv => obtain ⟨_, _, _, rfl⟩ := step_finish h; exact ⟨hq, rfl⟩
   | resumed j =>
-    rcases step_resumed h with ⟨_, rfl⟩ | ⟨_, _, rfl⟩ | ⟨_, _, _, _, rfl⟩ <;> exact ⟨hq, rfl⟩
+    rcases step_resumed h with ⟨_, rfl⟩ | ⟨_, _, rfl⟩ | ⟨_, _, _, rfl⟩ <;> exact ⟨hq, rfl⟩
+  | skip j g => simp [actor] at ha; subst ha; exact absurd rfl (hsk g)
   | switch j g => simp [actor] at ha; subst ha; exact absurd rfl (hsw g)
   | steal j i w g => simp [actor] at ha; subst ha; exact absurd rfl (hst i w g)
 
@@ -879,17 +1279,22 @@ theorem rank_stolen {M : Nat} {s s' : St} {k j f : Nat} {w : Which} (hI : Inv M 
 /-- (c) the fiber on the bottom of `schedule_from` is the one the next switch goes to -/
 theorem switch_bottom {M : Nat} {s s' : St} {k g f : Nat} {r : List Nat}
     (hf : s.frm k = f :: r) (h : step M s (.switch k g) = some s') : g = f := by
-  obtain ⟨_, frm', to', hn, _⟩ := step_switch h
+  obtain ⟨_, _, frm', to', hn, _⟩ := step_switch h
   rw [hf] at hn
   simp [next] at hn
   exact hn.1.symm
 
-/-- (c) the holder steals once more: only inside the load_balance call in which it stole `f`
-    (`f` sits in `schedule_from`, fewer than `maxSteal` steals so far), rank + 1 -/
+/-- (c) the holder steals once more.  Either `f` is loot of the load_balance call in progress
+    (`f` sits in `schedule_from`, fewer than `maxSteal` steals so far): rank + 1.  Or `f` waits in
+    `store_to` (fiber_scheduler_next returns NULL as soon as `schedule_from` is exhausted, with
+    the fibers it skipped — and whatever was woken since — in `store_to`): rank + 2, the loot
+    is popped before the deques are swapped and re-queued in front of `f` if it yields. -/
 theorem rank_holder_steals {M : Nat} {s s' : St} {k j h f : Nat} {w : Which} (hI : Inv M s)
     (hq : QueuedOn k f s) (hst : step M s (.steal k j w h) = some s') :
-    f ∈ s.frm k ∧ s.to k = [] ∧ 0 < s.lb k ∧ s.lb k < M ∧ s'.lb k = s.lb k + 1 ∧
-      QueuedOn k f s' ∧ rankOn k f s' = rankOn k f s + 1 := by
+    QueuedOn k f s' ∧
+    ((f ∈ s.frm k ∧ 0 < s.lb k ∧ s.lb k < M ∧ s'.lb k = s.lb k + 1 ∧
+        rankOn k f s' = rankOn k f s + 1) ∨
+     (f ∈ s.to k ∧ rankOn k f s' = rankOn k f s + 2)) := by
   obtain ⟨hkj, _, rest, n, hsrc, hlb, _, _, _, _, elb, efk, etk, _, _, _⟩ := step_steal_eff hst
   have hhj : s.loc h = some j := by
     cases w with
@@ -900,12 +1305,20 @@ theorem rank_holder_steals {M : Nat} {s s' : St} {k j h f : Nat} {w : Which} (hI
     rcases hq with h1 | h1
     · have := hI.frmLoc k h h1; rw [hhj] at this; simp at this; exact hkj this.symm
     · have := hI.toLoc k h h1; rw [hhj] at this; simp at this; exact hkj this.symm
-  rcases lbNext_some hlb with ⟨h1, h2, _⟩ | ⟨_, h1, h2, h3⟩
-  · simp [QueuedOn, h1, h2] at hq
-  · have hto := hI.lbTo k h1
-    have hfk : f ∈ s.frm k := by simpa [QueuedOn, hto] using hq
-    refine ⟨hfk, hto, h1, h2, by simp [elb, h3], Or.inl (by simp [efk, hfk]), ?_⟩
-    simp [rankOn_eq, rk, efk, hfk, pos_cons, hhf]
+  have hnd := hI.nodup k
+  by_cases hfk : f ∈ s.frm k
+  · rcases lbNext_some hlb with ⟨h1, _⟩ | ⟨_, h1, h2, h3⟩
+    · simp [h1] at hfk
+    · refine ⟨Or.inl (by simp [efk, hfk]), Or.inl ⟨hfk, h1, h2, by simp [elb, h3], ?_⟩⟩
+      simp [rankOn_eq, rk, efk, hfk, pos_cons, hhf]
+  · have hft : f ∈ s.to k := by
+      rcases hq with h1 | h1
+      · exact absurd h1 hfk
+      · exact h1
+    refine ⟨Or.inr (by simp [etk, hft]), Or.inr ⟨hft, ?_⟩⟩
+    have hfh : f ≠ h := fun e => hhf e.symm
+    simp [rankOn_eq, rk, efk, etk, hfk, hfh]
+    omega
 
 /-- inside a load_balance call everything in `schedule_from` is loot of that call: the rank
     of a fiber there is below the number of steals made so far, hence below `maxSteal` -/
@@ -925,42 +1338,47 @@ theorem pot_le {M : Nat} {s : St} (hI : Inv M s) (f : Nat) :
     by_cases hc : s.cur k = some f
     · rw [pot_cur hl hc]; omega
     · rw [pot_queued hl hc]
-      have hq := queued_of_loc hI hl hc
-      by_cases hlb : 0 < s.lb k
-      · have hto := hI.lbTo k hlb
-        have hfk : f ∈ s.frm k := by simpa [hto] using hq
-        have := (rank_lt_lb hI hlb hfk).1
-        simp only [rankOn_eq] at this
-        have hmax := hI.lbMax k
-        simp only [slack, hlb, if_true]
-        rw [Nat.max_def] at hmax
-        split at hmax <;> omega
-      · simp only [slack, hlb, if_false, Nat.add_zero]
-        have hsub : ∀ x ∈ s.frm k ++ s.to k, x ∈ s.busy := by
-          intro x hx
-          rw [hI.busyIff]
-          simp at hx
-          rcases hx with hx | hx
-          · simp [hI.frmLoc k x hx]
-          · simp [hI.toLoc k x hx]
-        have hlen := length_le_of_nodup_subset (hI.nodup k) hsub
-        simp only [List.length_append] at hlen
-        have := Sched.rank_lt (f := f) (s := view s k) hq
-        have h2 : Sched.rank f (view s k) = rk f (s.frm k) (s.to k) := rfl
-        simp only [view] at this h2
-        omega
+      have hcap := cap hI k
+      simp only [qpot]
+      split
+      · rename_i hfk
+        have hp := Sched.pos_lt_length hfk
+        by_cases hlb : 0 < s.lb k
+        · have h1 := hI.lbLen k hlb
+          have hmax := hI.lbMax k
+          simp only [slack, hlb, if_true]
+          rw [Nat.max_def] at hmax
+          split at hmax <;> omega
+        · simp only [slack, hlb, if_false]
+          omega
+      · omega
+
+/-- while `f` waits in `store_to` of its holder (it was re-queued after a run, woken, or
+    skipped) its potential is at most `2·#fibers` -/
+theorem pot_le_of_to {M : Nat} {s : St} {k f : Nat} (hI : Inv M s) (hf : f ∈ s.to k) :
+    pot M f s ≤ 2 * s.busy.length := by
+  have hl := hI.toLoc k f hf
+  have hnd := hI.nodup k
+  have hfk : f ∉ s.frm k := fun h => (List.nodup_append.mp hnd).2.2 f h f hf rfl
+  by_cases hc : s.cur k = some f
+  · rw [pot_cur hl hc]; omega
+  · rw [pot_queued hl hc]
+    simp only [qpot, hfk, if_false]
+    omega
 
 
 /-! ### steal ping-pong: two idle thieves can pass a ready fiber back and forth for ever -/
 
 /-- fiber 0 (thread 0) wakes fiber 5; the idle threads 2 and 1 steal it in turn -/
-def ppSetup : List Ev := [.sched 0 5, .steal 2 0 .to 5, .steal 1 2 .frm 5]
+def ppSetup : List Ev :=
+  [.sched 0 5, .steal 2 0 .to 5, .pushed 2 .frm 5, .steal 1 2 .frm 5, .pushed 1 .frm 5]
 
 /-- thread 2 steals fiber 5 from thread 1 before thread 1 has popped it, thread 1 steals it back
     before thread 2 has popped it; meanwhile fiber 0 polls with `fiber_yield` (nothing to run on
     thread 0: the call returns at once) -/
 def ppCycle : List Ev :=
-  [.steal 2 1 .frm 5, .yield 0, .resumed 0, .steal 1 2 .frm 5, .yield 0, .resumed 0]
+  [.steal 2 1 .frm 5, .pushed 2 .frm 5, .yield 0, .resumed 0,
+   .steal 1 2 .frm 5, .pushed 1 .frm 5, .yield 0, .resumed 0]
 
 def stealPingpong : Nat → List Ev
   | 0 => []
@@ -973,12 +1391,18 @@ structure PP (s : St) : Prop where
   cur0 : s.cur 0 = some 0
   ph0 : s.phase 0 = .running
   lb0 : s.lb 0 = 0
+  hand0 : s.hand 0 = none
+  pend0 : s.pend 0 = none
   frm1 : s.frm 1 = [5]
   to1 : s.to 1 = []
   ph1 : s.phase 1 = .ending
+  hand1 : s.hand 1 = none
+  pend1 : s.pend 1 = none
   frm2 : s.frm 2 = []
   to2 : s.to 2 = []
   ph2 : s.phase 2 = .ending
+  hand2 : s.hand 2 = none
+  pend2 : s.pend 2 = none
 
 /-- `remote_count > local_count` (fiber_scheduler_wsd.c:135) holds at every steal of the run -/
 def CountGuard (M : Nat) : St → List Ev → Prop
@@ -999,9 +1423,10 @@ theorem pp_setup (M : Nat) : ∃ s, (sys M).run ppSetup = some s ∧ PP s ∧
 
 theorem pp_cycle (M : Nat) {s : St} (h : PP s) :
     ∃ s', (sys M).runFrom s ppCycle = some s' ∧ PP s' ∧ CountGuard M s ppCycle := by
-  obtain ⟨a1, a2, a3, a4, a5, a6, a7, a8, a9, a10, a11⟩ := h
+  obtain ⟨a1, a2, a3, a4, a5, a6, a7, a8, a9, a10, a11, a12, a13, a14, a15, a16, a17⟩ := h
   simp only [ppCycle, Sys.runFrom, sys, CountGuard]
-  simp [step, src, popTop, lbNext, setSrc, upd, a1, a2, a3, a4, a5, a6, a7, a8, a9, a10, a11]
+  simp [step, src, popTop, lbNext, setSrc, upd, a1, a3, a4, a5, a6, a7, a8, a10, a11,
+    a12, a13, a15, a16, a17]
   constructor <;> simp [upd, *]
 
 
